@@ -67,6 +67,8 @@ SubCls(i, s) ==
    IF i.mn \in ShiftMn THEN
       LET c == Cnt(i, s) IN
       IF c = 0 THEN "cnt0" ELSE IF c = 1 THEN "cnt1" ELSE IF c < i.w THEN "cnt<w" ELSE IF c = i.w THEN "cnt=w" ELSE "cnt>w"
+   ELSE IF i.mn \in BitMn /\ i.ops[1].k = "mem" /\ i.ops[2].k = "imm"
+      THEN (IF G(i.ops[2].v, 1) >= i.w THEN "immbig" ELSE "")
    ELSE IF i.mn \in BitMn /\ i.ops[1].k = "mem" /\ i.ops[2].k = "reg"
       THEN (IF Msb(Rd(i.ops[2], i.w, s), i.w) = 1 THEN "offneg" ELSE IF ~IsZero(ShrN(Rd(i.ops[2], i.w, s), IF i.w = 16 THEN 4 ELSE 5, i.w)) THEN "offbig" ELSE "")
    ELSE IF i.mn \in {"imul"} THEN "ops" \o ToString(Len(i.ops))
